@@ -137,6 +137,11 @@ def run(repo, rep):
               'table registered before the module\'s Status constants are classified',
               'Status constants are created before register_statuses() runs: they would all be classified Unknown/Failure')
 
+    # the registries are written by add_status only; the table they are filled from is constant
+    for tname, allowed in (('_status_dict', 'statuses:add_status'), ('_general_status_dict', 'statuses:add_status'), ('KNOWN_STATUSES', None)):
+        w_ = [x for x in repo.table_writers('statuses', tname) if allowed is None or not x.startswith(allowed + ':')]
+        rep.check(not w_, 'C18.W1', 'statuses:%s:writers' % tname, st.relpath,
+                  'written by add_status only' if allowed else 'constant after import', '; '.join(w_))
     # ---------------------------------------------------------------- W2
     sc = repo.cls('statuses', 'Status')
     init = sc.find_method('__init__')
